@@ -117,6 +117,9 @@ func init() {
 					base.Host = "10.9.8.7:4180"
 				}
 				base.TLS = vpS(in, "conn") == "tls"
+				if vpS(in, "peer") == "unix" {
+					base.RemoteAddr = "@"
+				}
 				with := base
 				hm := vpM(in, "hdr")
 				var names []string
